@@ -6,7 +6,8 @@ for _p in ["C%02d" % i for i in range(1, 21)]:
 claim("C12", "Lean 4 theorems (tiled-write lemma, per-encoder equation) + differential correspondence",
       "Proved for the model, for every encodable request/response/exception/RTU/TCP ADU and every buffer (any length, any contents): "
       "encode = error if the buffer is shorter than the encoded size, else exactly (size, image ++ old tail); no panic; bytes beyond the returned length untouched "
-      "(Props/C12.lean: EncSpec.property, request, response, exceptionResponse, responsePdu, rtuRequest, rtuResponse, tcpRequest, tcpResponse). "
+      "(Props/C12.lean: EncSpec.property, request, response, exceptionResponse, responsePdu, rtuRequest, rtuResponse, tcpRequest, tcpResponse; the TCP encoders additionally refuse a PDU that does not fit the 16-bit MBAP length field: "
+      "tcp_exact, tcp_oversize_refused, tcpRequest_total). "
       "Model tied to the crate by running every encoder on generated values x buffer lengths 0..size+3 x two fills and comparing whole buffers.",
       "Encodable = implemented kind, byte count <= 255, container holds the promised bytes; RTU-only kinds (todo!() in the crate) are outside the theorem.")
 
@@ -78,7 +79,8 @@ claim("C09", "Lean 4 theorems (guard analysis of extract_frame and of the scan l
 claim("C14", "Lean 4 theorems (complete characterisation of the scan loop for an arbitrary attempt, instantiated for the four scanners) + differential correspondence over noise lengths 0..300",
       "Proved for the model: scan = the first non-rejected offset among 0..min(len-2,255) (scan_spec / scan_eq_scanRef); hence (1) up to 255 bytes of noise every offset of which is rejected, then a frame, yields exactly that frame "
       "with start = noise length, with a bytes-only sufficient condition per transport (…_resync); (2) no frame is ever reported after an offset that is not rejected (…_no_later, …_not_after); "
-      "(3) 256 rejected offsets in a buffer of >= 257 bytes give an error, not 'incomplete' (…_gives_up), while <= 256 bytes of garbage give 'incomplete' by design (Props/C14.lean).",
+      "(3) 256 rejected offsets in a buffer of >= 257 bytes give an error, not 'incomplete' (…_gives_up), while <= 256 bytes of garbage give 'incomplete' by design (Props/C14.lean); "
+      "C14Full.lean: the same through the ADU decoders for every built value; C14Recv.lean: the receive loop drops exactly the noise and keeps the stream position.",
       "Clause 3 is read with the buffer-length premise (>= 257 bytes): short garbage yields 'incomplete' by design and a unit test of the crate asserts it. RTU-request offsets whose function-code byte is 0x0F/0x10 are open finding D4.")
 
 claim("C01", "Lean 4 theorems (decoder on each layout, composition with the encoder equation and the packing theorems) + differential correspondence + round-trip oracle",
@@ -102,23 +104,26 @@ claim("C03", "Lean 4 theorems against an independent statement of the wire layou
 claim("C04", "Lean 4 theorems composing the ADU encoder equation, the reception theorems (C10) and the PDU decoders + differential correspondence over all 256 slave ids + round-trip oracle",
       "Proved for the model, for every slave id: the encoded frame is slave id, PDU, be16(crc16) of those bytes, length PDU+3 (rtu_req_layout, rtu_rsp_layout); handing that frame (also followed by further bytes) to the opposite decoder returns the same "
       "slave id and the PDU decoder's value; exception responses (functions 1..0x2B, nine codes) come back as exceptions (rtu_exception_roundtrip); requests as ..._partial excluding 0x0F/0x10 (open finding D4) and responses excluding "
-      "WriteSingleCoil (open finding D12), each with defect witnesses and refutations of the full statement (Props/C04.lean).",
+      "WriteSingleCoil (open finding D12), each with defect witnesses and refutations of the full statement (Props/C04.lean); hypothesis-free end-to-end forms for every built value in C04Full.lean, the inverse direction (decode then re-encode) in C04Dec.lean.",
       "For the variable-payload kinds the PDU-level round trip enters as a hypothesis that C01/C02 discharge (C01.req_roundtrip, C02.rsp_roundtrip); fixed-layout kinds and exceptions are hypothesis-free. That crc16 is CRC-16/MODBUS with the low byte first is C06.")
 
 claim("C05", "Lean 4 theorems composing the ADU encoder equation, the reception theorems (C10) and the PDU decoders + differential correspondence over transaction/unit ids + round-trip oracle",
       "Proved for the model, for every transaction id and unit id: the encoded ADU is tid (big-endian), protocol id 0, length = PDU+1, unit id, PDU, total PDU+7 (tcp_req_layout, tcp_rsp_layout, tcp_frame_fields); decoding it "
       "(also followed by further bytes) returns the same tid, uid and the PDU decoder's value; an exception response (functions 1..0x2B) is returned as an exception, never as a success (tcp_exception_roundtrip, tcp_exception_never_success); "
-      "responses as ..._partial excluding WriteSingleCoil (open finding D12, witness) (Props/C05.lean).",
+      "responses as ..._partial excluding WriteSingleCoil (open finding D12, witness); a PDU of more than 65534 bytes is refused and the length field never wraps, for every value and buffer (tcp_length_field_never_wraps) "
+      "(Props/C05.lean); the hypothesis-free end-to-end forms for every built value are in C05Full.lean, and the inverse direction (every frame a decoder accepts re-encodes to the same frame, up to normalisation) in C05Dec.lean.",
       "Exception frames for function 0 or 0x2C..0x7F are not frameable by the length table: proved to yield 'incomplete', never a success. Variable-payload kinds: PDU-level round trip is the hypothesis discharged by C01/C02.")
 
 claim("C13", "Lean 4 theorems (inversion of the decoders, coherence of the decoded containers, exact characterisation of the defect region) + differential correspondence on corrupted count fields + usage oracle",
       "Proved for the model: EVERY value Response.decode returns is coherent (len; get returns an item below len and nothing at or above it for every index value; iteration yields len items; pdu_len and encode never panic; "
       "re-encode/decode gives the same meaning) and encodes into every buffer >= pdu_len (rsp_decoded_coherent, rsp_decoded_encodes); for requests the same holds IFF the input is not a write-multiple-coils request whose data is "
-      "shorter than ceil(quantity/8) (req_decoded_coherent_iff; ..._partial forms; witness for 0F 33 11 00 04 00, also through both ADU decoders) (Props/C13.lean).",
+      "shorter than ceil(quantity/8) (req_decoded_coherent_iff; ..._partial forms; witness for 0F 33 11 00 04 00, also through both ADU decoders); decoded register data holds exactly 2*quantity bytes and "
+      "re-encode/decode returns the very same value (rsp_decoded_data_exact, rsp_redecode_exact) (Props/C13.lean).",
       "The excluded region is exactly open finding D5b, pinned by the unedited unit test deserialize_requests::write_multiple_coils; see KNOWN_FINDINGS.txt.")
 
 claim("C19", "Lean 4 theorems (the encoder's outcome is a function of `fits`) + differential correspondence at sizes 120..300, 1000, 32767..70000 words and 1960..2100, 4000, 65536+ coils",
       "Proved for the model, for every payload size constructible through the public constructors (no bound): encode never panics; if it succeeds the payload fits, the bytes are exactly the specification's bytes "
       "(count fields equal the payload) and decode to an equivalent value; if the payload does not fit the one-byte count, encode is an error for every buffer "
       "(req_no_truncation, req_encode_outcome, rsp_no_truncation, rsp_error_or_exact, count_fields_*; Props/C19Req.lean, C19Rsp.lean).",
-      "The MBAP length field of tcp::server::encode_* ((len+1) as u16) can wrap only for custom PDUs of >= 65535 bytes; the property's scope is the PDU encoders' count fields, and C05 carries the explicit hypothesis.")
+      "Values assembled from DECODED containers are covered too (Props/C19X.lean: the Data of any decoded register response has exactly 2*quantity bytes and, placed in a write request, encodes to the specification's bytes of its words - "
+      "this failed before fix 016c806). The MBAP length field of the TCP ADU encoders is C05/C12 (fix eae7d15: an over-long custom PDU is refused; tcp_length_field_never_wraps).")
